@@ -1,6 +1,6 @@
 """Input generators.  Every random choice comes from the `random.Random` passed in."""
 
-CAPS = ["ALU", "MEM", "FPU"]
+CAPS = ["ALU", "MEM", "FPU", "BR", "simd", "Io"]
 NAME_POOLS = [
     ["u0", "u1", "u2", "u3", "u4", "u5", "u6", "u7", "u8", "u9"],
     ["B", "a", "C", "d", "E", "f", "G", "h", "I", "j"],
@@ -11,6 +11,8 @@ NAME_POOLS = [
     ["$width", "$new_elem", "$start", "$line", "$port", "$$", "$capability", "$unit", "$elem", "$lock_type"],
     # Latin-1 names: letters with case partners above U+00BF, letters without one (sharp s, micro sign,
     # y-diaeresis), non-letters, and the two Latin-1 white-space characters (NEL, no-break space)
+    # numbered names: natural-sort traps (digit runs of different length, leading zeros, '-' below '0')
+    ["ALU2", "ALU10", "u9", "u10", "a01", "a1", "MEM1", "MEM-1", "x100", "x20"],
     ["\u00c9cole", "\u00f1and\u00fa", "Stra\u00dfe", "\u00b5op", "\u00dcnit", "\u00c6sir", "\u00feorn", "\u00ff",
      "a\u00d7b", "x\u00f7y\u00a0z"],
 ]
@@ -151,7 +153,7 @@ def rand_desc(rng, nmax=6, ncap_max=3, wmax=3, case_noise=True, mem_p=0.3, nbig=
         names = rng.sample(rng.choice(NAME_POOLS), n)
     if rng.random() < 0.02:
         wmax = max(wmax, 9)
-    caps = CAPS[: rng.randint(1, ncap_max)]
+    caps = CAPS[: big(rng, ncap_max, len(CAPS), 0.04, lo=1)]
     us = []
     for nm in names:
         c = [x for x in caps if rng.random() < 0.75] or [rng.choice(caps)]
@@ -167,6 +169,16 @@ def rand_desc(rng, nmax=6, ncap_max=3, wmax=3, case_noise=True, mem_p=0.3, nbig=
         us.append(u)
     es = [[names[a], names[b]] for a, b in rand_dag(rng, n)]
     d = {"units": us, "dataPath": es}
+    return d
+
+
+def shuffle_keys(rng, d):
+    """the same description with the keys of every unit dict in a random order (dict order is not part of
+    a description)"""
+    for i, u in enumerate(d["units"]):
+        ks = list(u)
+        rng.shuffle(ks)
+        d["units"][i] = {k: u[k] for k in ks}
     return d
 
 
@@ -285,9 +297,11 @@ def valid_desc(rng, nmax=6, **kw):
     return d
 
 
-def rand_prog(rng, caps, nmax=8, nreg=None, bad=0.0, selfdep=0.3, nbig=40):
+def rand_prog(rng, caps, nmax=8, nreg=None, bad=0.0, selfdep=0.3, nbig=40, nhuge=0):
     """list of (sources tuple sorted unique, destination, capability)"""
     n = big(rng, nmax, max(nmax, nbig), 0.02)
+    if nhuge and rng.random() < 0.0004:
+        n = rng.randint(258, nhuge)              # instruction indices beyond CPython's small-int cache
     nreg = nreg or rng.randint(2, 5)
     regs = [f"R{i}" for i in range(nreg)]
     prog = []
@@ -422,7 +436,7 @@ def rand_instr_list(rng, n=None, mnems=None, regs=None):
     mnems = mnems or ["ADD", "SUB", "LW", "mul", "Beq"]
     out = []
     for _ in range(n):
-        k = big(rng, 5, 150, 0.03, lo=1)
+        k = big(rng, 5, 1200, 0.03, lo=1)
         ops = [recase(rng, ident(rng, regs), 0.3) for _ in range(k)]
         out.append([recase(rng, ident(rng, mnems), 0.3), ops])
     return out
